@@ -236,8 +236,11 @@ def _slot_worker(a):
             pre += [{"t": "host", "id": cid, "name": "h.example"}, {"t": "ident", "id": cid, "name": "id"}]
         pre += [{"t": "announce", "id": cid2, "ip": "1.2.3.5", "port": 1001}, {"t": "password", "id": cid2, "text": "+x bob pw"},
                 {"t": "host", "id": cid2, "name": "h3.example"}, {"t": "ident", "id": cid2, "name": "id2"}]
-        mid_reply = [{"t": "reply", "svc": A, "tag": "%x_2" % cid2, "text": rng.choice(["NO go away", "OK", "OK bob", "AGAIN retry"])}] if rng.random() < 0.8 else \
+        mid_reply = [{"t": "reply", "svc": A, "tag": "%x_2" % cid2, "text": rng.choice(["NO go away", "OK", "OK bob", "AGAIN retry"])}] if rng.random() < 0.6 else \
                     [{"t": "unlinked", "svc": A, "tag": "%x_2" % cid2, "text": "Server not online"}]
+        if rng.random() < 0.35:
+            # ... or is challenged by A and leaves in the middle of that dialogue
+            mid_reply = [{"t": "reply", "svc": A, "tag": "%x_2" % cid2, "text": "MORE prove it"}, {"t": rng.choice(["disconnect", "registered"]), "id": cid2}]
     else:
         mid_reply = []
     mid = [{"t": "reload", "services": t1}] + mid_reply + [{"t": "reload", "services": t2}]
@@ -298,7 +301,7 @@ def run(chk, tier, scale=1.0):
                 for n in rng.sample(extra, min(len(extra), rng.choice([0, 1, 2]))):
                     tab.append((n, rng.choice(proto.PROTOS)))
                 alt.append(tab)
-        jobs.append(dict(build=b, config=cfg.to_json(), seed=rng.randrange(1 << 30), n=90, ids=[3, 4, 5][:rng.choice([2, 3])],
+        jobs.append(dict(build=b, config=cfg.to_json(), seed=rng.randrange(1 << 30), n=90, ids=([3, 4, 5][:rng.choice([2, 3])] if i % 5 else [[2147483647, -2, 7], [-2147483648, 5, 2000000000], [5, 1029, 65541]][(i // 5) % 3]),
                          nsets=4 if tier == "quick" else 8, kper=8, alt_services=alt))
     results = vcommon.pmap(_worker, jobs, chunksize=2)
     results += vcommon.pmap(_slot_worker, [dict(build=b, seed=chk.seed * 1000 + k) for k in range(int((24 if tier == "quick" else 400) * scale))])
